@@ -158,9 +158,11 @@ def lsgraphH : P String := do
   P.eof
   let n := A.length
   let g : List Node := nodes.map (fun k => ⟨k, []⟩)
+  -- `nbBuild`: the incremental sorted unions of `getFactor` as written, in node (= creation) order; `nbrs`: recomputed
+  let inc := nbBuild n nodes
   let bad := (List.range n).find? (fun a =>
     let p := per.getD a ([], [])
-    p.1 != nbrs n a nodes || p.2 != (adjNodes a g).map (·.keys))
+    p.1 != nbrs n a nodes || p.1 != inc.getD a [] || p.2 != (adjNodes a g).map (·.keys))
   match bad with
   | some a => return s!"diff FactorGraph.bookkeeping agent={a} impl={per.getD a ([], [])} model=({nbrs n a nodes},{(adjNodes a g).map (·.keys)})"
   | none => return (if nodes.isEmpty || n ≤ 1 then "ok trivial" else "ok lsgraph")
